@@ -32,13 +32,14 @@ def log(msg):
 
 
 def match_known(prop, finding, known):
+    d = finding.get("detail") or {}
     for k in known:
-        m = k.get("match", {})
-        if m.get("class") != finding["class"]:
-            continue
-        d = finding.get("detail") or {}
-        if all((d.get(kk) in vv) if isinstance(vv, list) else (d.get(kk) == vv) for kk, vv in (m.get("where") or {}).items()):
-            return k
+        ms = k.get("match", {})
+        for m in ms if isinstance(ms, list) else [ms]:
+            if m.get("class") != finding["class"]:
+                continue
+            if all((d.get(kk) in vv) if isinstance(vv, list) else (d.get(kk) == vv) for kk, vv in (m.get("where") or {}).items()):
+                return k
     return None
 
 
